@@ -159,7 +159,7 @@ def main(tier, seed, replay=None):
         violations.append({"key": "model:%s:%d:%d:%s" % (mcviol["mode"], mcviol["scenario"], mcviol["jobs"], mcviol["violated"]),
                            "what": "RunMC: %s violated" % mcviol["violated"], "replay": p})
         mc = (0, 0, [])
-    nproj = 12 if tier == "quick" else 150
+    nproj = 12 if tier == "quick" else 80
     variants = VARIANTS_QUICK if tier == "quick" else VARIANTS_THOROUGH
     seeds = [seed, seed + 1] if tier == "quick" else [seed, seed + 1, seed + 2]
     all_runs = {}
